@@ -221,6 +221,28 @@ pub fn tx_monitors(h: &Hist, ms: &mut MonState, b: &Obs, line: &str, res: &str, 
                 if !enabled { out.push(format!("mon_disabled {} {}", what, ok as u8)); }
             }
         }
+        // C17: a toggle sets exactly the switches it names on exactly the pool it names
+        if ok && tx.kind == "config" {
+            for pb in b.pools.iter() {
+                let id = &pb.pool_info.pool_identifier;
+                if let Some(pa) = pool(a, id) {
+                    let named = tx.args[4] == *id;
+                    let want = |req: &str, cur: bool| -> bool { if named { match req { "true" => true, "false" => false, _ => cur } } else { cur } };
+                    let sb = &pb.pool_info.status;
+                    let good = pa.status.swaps_enabled == want(&tx.args[5], sb.swaps_enabled)
+                        && pa.status.deposits_enabled == want(&tx.args[6], sb.deposits_enabled)
+                        && pa.status.withdrawals_enabled == want(&tx.args[7], sb.withdrawals_enabled);
+                    out.push(format!("mon_toggle {}", good as u8));
+                }
+            }
+        } else if ok {
+            // no other message ever changes a switch
+            for pb in b.pools.iter() {
+                if let Some(pa) = pool(a, &pb.pool_info.pool_identifier) {
+                    if pa.status != pb.pool_info.status { out.push("mon_toggle 0".to_string()); }
+                }
+            }
+        }
         // LP supply changes only through deposits and withdrawals
         for p in a.pools.iter() {
             let id = &p.pool_info.pool_identifier;
